@@ -85,7 +85,14 @@ class HybridRun:
 
     def run(self):
         ctx, sc = self.ctx, self.sc
-        g = self.build()
+        try:
+            g = self.build()
+        except ValueError:
+            if not sc["joint"].get("lmrf_loc"):
+                raise
+            ctx.count("configuration_refused_by_the_sampler")      # (a refusal is a correct answer for this configuration)
+            ctx.nontrivial = True
+            return
         twin, tdata = zoo.gibbs_joint(sc["joint"])        # pristine, never touched by the sampler
         self.twin_probes = tdata["probes"]
         self.tdata = tdata
@@ -552,6 +559,12 @@ def gen_case(r, tier):
         if sc["joint"]["shape"] in ("x_s", "x_d_s", "x_d_lmrf") and sc["joint"].get("model") != "deconv" and r.random() < 0.4:
             sc["joint"]["model"] = "func"
             sc["fault_rate"] = r.choice([0.0, 0.1, 0.3])
+        if sc["joint"]["shape"] == "x_d_lmrf" and sc["joint"]["n"] >= 3 and sc["strategy"]["d"]["kind"] == "ConjugateApprox" \
+                and sc["joint"].get("model") != "func" and r.random() < 0.4:
+            # a non-zero prior location whose entries sum to zero: either the approximate conjugate sampler refuses the
+            # configuration or it draws from the conditional that contains the location
+            sc["joint"]["lmrf_loc"] = True
+            sc["strategy"]["x"] = {"kind": r.choice(["MH", "CWMH"]), "knobs": {"scale": r.choice([0.1, 0.4])}}
         if r.random() < 0.5:
             ops.append({"op": "warmup", "n": r.randint(1, 12)})
         for _ in range(r.randint(1, 3)):
